@@ -20,7 +20,7 @@ def coll_text(defs):
     """human form of an insertion sequence"""
     out = []
     for d in defs:
-        out.append("%s:ins%02d/SYM%02d%s" % (EX.get(d["ex"], d["ex"]), d["ni"], d["nx"], "(perp)" if d["kind"] == "perp" else ""))
+        out.append("%s:ins%02d/SYM%02d%s" % (EX.get(d["ex"], d["ex"]), d["ni"], d["nx"], "(%s)" % d["kind"] if d["kind"] != "spot" else ""))
     return "[" + ", ".join(out) + "]"
 
 
@@ -66,7 +66,7 @@ def malformed(line):
         if "key" in x or 0 in (x.get("ex"), x.get("a"), x.get("nx")):
             return "tables:assets", "asset table entry %s (index is not the position, or unknown name)" % json.dumps(x)
     for x in line["ins"]:
-        if "key" in x or not isinstance(x.get("unit"), int) or x.get("kind") == "other" or 0 in (x.get("ex"), x.get("ni"), x.get("nx"), x.get("id")):
+        if "key" in x or not isinstance(x.get("unit"), int) or 0 in (x.get("ex"), x.get("ni"), x.get("nx"), x.get("id")):
             return "tables:instruments", "instrument table entry %s (index is not the position, or not the inserted definition)" % json.dumps(x)
     return None
 
